@@ -35,6 +35,10 @@ REMS = ["yui::<&'a types::qint::QuadInt<I, -1> as std::ops::Rem<&'b types::qint:
         "yui::<&'a types::qint::QuadInt<I, -3> as std::ops::Rem<&'b types::qint::QuadInt<I, -3>>>::rem"]
 
 
+from symex import private_helper
+INL = private_helper()    # a step extracted into a private helper is read in place
+
+
 def sk(t):
     return re.sub(r'#(?:i\d+:)?\d+\.\d+', '', show(t, -60))
 
@@ -228,7 +232,7 @@ def run(facts, rep, parts=('Q1', 'Q2', 'Q3', 'Q4', 'Q5', 'Q6')):
     try:
         # Q1
         seen_modes = set()
-        for p in (SymEx(bodies['mul']).run() if 'Q1' in parts else ()):
+        for p in (SymEx(bodies['mul'], inline=INL).run() if 'Q1' in parts else ()):
             if p.end != 'return':
                 continue
             mode = path_mode(p)
@@ -253,11 +257,11 @@ def run(facts, rep, parts=('Q1', 'Q2', 'Q3', 'Q4', 'Q5', 'Q6')):
             rep.indet('E20: mul does not cover both congruence classes of D (%s)' % seen_modes)
         # Q2
         conj = {}
-        for p in SymEx(bodies['conj']).run():
+        for p in SymEx(bodies['conj'], inline=INL).run():
             if p.end == 'return' and path_mode(p) in (1, 23):
                 conj.setdefault(path_mode(p), set()).add(tuple(tuple(sorted(c.items())) for c in qint(p.ret, env1)))
         norm = {}
-        for p in SymEx(bodies['norm']).run():
+        for p in SymEx(bodies['norm'], inline=INL).run():
             if p.end == 'return' and path_mode(p) in (1, 23):
                 norm.setdefault(path_mode(p), set()).add(tuple(sorted(poly(p.ret, env1).items())))
         for m in ((1, 23) if 'Q2' in parts else ()):
@@ -285,7 +289,7 @@ def run(facts, rep, parts=('Q1', 'Q2', 'Q3', 'Q4', 'Q5', 'Q6')):
                 rep.ok('E20.Q2-conj-norm', inst, 'conj = (%s) + (%s) w; norm = %s' % (pshow(c[0]), pshow(c[1]), pshow(nm)))
         # Q3
         shapes = set()
-        for p in SymEx(bodies['inv']).run():
+        for p in SymEx(bodies['inv'], inline=INL).run():
             if p.end == 'return':
                 br = [(sk(e.term), e.value) for e in p.branches()]
                 shapes.add((sk(p.ret), tuple(br)))
@@ -307,7 +311,7 @@ def run(facts, rep, parts=('Q1', 'Q2', 'Q3', 'Q4', 'Q5', 'Q6')):
         # Q4
         for key, d, basis in ((('dr1', -1, 'gauss'), ('dr3', -3, 'eisenstein')) if 'Q4' in parts else ()):
             b = bodies[key]
-            rets = [p.ret for p in SymEx(b).run() if p.end == 'return']
+            rets = [p.ret for p in SymEx(b, inline=INL).run() if p.end == 'return']
             inst = 'QuadInt<%d>::div_round|components of (self * conj rhs) rounded by norm rhs' % d
             n_inst += 1
             if len(rets) != 1:
@@ -367,7 +371,7 @@ def run(facts, rep, parts=('Q1', 'Q2', 'Q3', 'Q4', 'Q5', 'Q6')):
                 rep.indet('E20: %s not found' % name)
                 continue
             rep.saw(b)
-            rets = {sk(p.ret).replace('&', '') for p in SymEx(b).run() if p.end == 'return'}
+            rets = {sk(p.ret).replace('&', '') for p in SymEx(b, inline=INL).run() if p.end == 'return'}
             inst = '%s|self - rhs * (self / rhs)' % name.split(' as ')[0].split('<')[-1]
             n_inst += 1
             if rets == {'sub(arg1, mul(arg2, div(arg1, arg2)))'}:
@@ -417,16 +421,16 @@ def check_normalizing_unit(facts, rep):
         return
     rep.saw(b)
     try:
-        om_s = {sk(p.ret) for p in SymEx(om).run() if p.end == 'return'}
-        one_s = {sk(p.ret) for p in SymEx(one).run() if p.end == 'return'}
+        om_s = {sk(p.ret) for p in SymEx(om, inline=INL).run() if p.end == 'return'}
+        one_s = {sk(p.ret) for p in SymEx(one, inline=INL).run() if p.end == 'return'}
         nw = facts.bodies.get(Q + 'new')
-        new_s = {sk(p.ret) for p in SymEx(nw).run() if p.end == 'return'} if nw else set()
+        new_s = {sk(p.ret) for p in SymEx(nw, inline=INL).run() if p.end == 'return'} if nw else set()
         if (om_s, one_s, new_s) != ({'new(zero(), one())'}, {'new(one(), zero())'}, {'QuadInt::QuadInt{0: arg1, 1: arg2}'}):
             raise Unrec('omega() / one() / new are %s / %s / %s' % (om_s, one_s, new_s))
         a, bb = Lin.var('a'), Lin.var('b')
         comp = {'0': a, '1': bb}
         n = {-1: 0, -3: 0}
-        for p in SymEx(b, max_paths=20000).run():
+        for p in SymEx(b, max_paths=20000, inline=INL).run():
             if p.end != 'return':
                 continue
             d = None
@@ -445,9 +449,9 @@ def check_normalizing_unit(facts, rep):
                 if asg.setdefault(s, truth) != truth:
                     feas = False
                     break
-                x = m.group(2).replace('&', '')
-                m0 = re.match(r'pair\(arg1\)\.([01])$', x)
-                m1 = re.match(r'add\(pair\(arg1\)\.0, pair\(arg1\)\.1\)$', x)
+                x = m.group(2).replace('&', '').replace('*', '').replace('pair(arg1)', 'arg1')
+                m0 = re.match(r'arg1\.([01])$', x)
+                m1 = re.match(r'add\(arg1\.0, arg1\.1\)$', x) or re.match(r'add\(arg1\.1, arg1\.0\)$', x)
                 if m0:
                     lin = comp[m0.group(1)]
                 elif m1:
@@ -469,7 +473,7 @@ def check_normalizing_unit(facts, rep):
             re_ = a.scale(u[0]) + bb.scale(-u[1])
             im_ = a.scale(u[1]) + bb.scale(u[0]) + (bb.scale(u[1]) if d == -3 else Lin())
             unit = (u[0] * u[0] + u[1] * u[1] == 1) if d == -1 else (u[0] * u[0] + u[0] * u[1] + u[1] * u[1] == 1)
-            conds = sorted('%s=%s' % (k.replace('pair(arg1)', 'z'), int(v)) for k, v in asg.items())
+            conds = sorted('%s=%s' % (k.replace('pair(arg1)', 'z').replace('*arg1', 'z').replace('arg1', 'z'), int(v)) for k, v in asg.items())
             inst = 'QuadInt<%d>::normalizing_unit|[%s] -> u = %d + %d w' % (d, ', '.join(conds), u[0], u[1])
             n[d] += 1
             in_sector = entails(K, re_ - Lin.const(1)) and entails(K, im_)
